@@ -126,6 +126,17 @@ def build_cover(rng, res):
             labs = {d["clique"] for _, _, d in h.edges(data=True)}
             cover = [ast.literal_eval(l.split("-")[1]) for l in labs]
         cover = _contiguous(cover)
+    if rng.random() < 0.12:
+        # 1-cliques: a cover may list single vertices (an isolated vertex of the covered graph, a vertex kept for bookkeeping) - size 1 is a
+        # clique size like any other and gets a column of its own
+        top = max(v for c in cover for v in c)
+        for _ in range(rng.randint(1, 3)):
+            if rng.random() < 0.5:
+                top += 1
+                cover.append([top])
+            else:
+                cover.append([rng.randint(0, top)])
+        res.count("covers_with_one_vertex_cliques")
     res.count("src_" + src)
     one = rng.random() < 0.4
     if one:
